@@ -58,6 +58,30 @@ CLAIMED["C06"] = (
     "custom AST dataflow: must-facts / guard dominance per path class, must-pass-through events, template matching of substitution tuples (static analysis)",
     "DESIGN.md section 5, C06",
 )
+CLAIMED["C03"] = (
+    "Shape-agreement, guard-dominance and dependency rules on the elementary schedule transformations: every tile_dim "
+    "call is dominated by divisibility of the very bound being tiled by the very tile size passed; rotate reorders "
+    "bounds and matrix columns by one and the same partition of [0,N); tile_dim divides/inserts/multiplies by one factor "
+    "at positions dim, dim+1 with the suffix shifted; add_dim inserts bound 1 in front; unit-dimension dropping uses one "
+    "predicate for bounds and columns whose complement is bound == 1 (abstractly evaluated); the Schedule wrappers pass "
+    "arguments unchanged to every pattern; the pass derives the schedule from this op's bounds and all its patterns on "
+    "every path and emits schedule[0].bounds with one map per pattern. Does not decide AffineTransform.compose arithmetic.",
+    WALKER_NOTE,
+    "custom AST analysis: symbolic index-segment comparison, must-facts, per-path-class definitions (static analysis)",
+    "DESIGN.md section 5, C03",
+)
+CLAIMED["C16"] = (
+    "Must-pass-through rules on scheduler_backtrack: a candidate reaches the recursive call only after template.matches "
+    "and all extra checks held on the current rotation and, per path class, the template dimension is unbounded, the "
+    "schedule bound is <= the template bound, or the candidate was tiled by exactly the (dividing) template bound; a "
+    "schedule is yielded only after all dims were handled; Template.matches rejects arity mismatches and needs every pair; "
+    "TemplatePattern.matches never drops result rows of the schedule operand; the memory-granularity test pairs its two "
+    "conditions per operand dimension; the pass and scheduler() request exactly these constraints. Does not decide the "
+    "SVD subspace comparison or the numeric predicates' arithmetic.",
+    WALKER_NOTE,
+    "custom AST dataflow: must-facts per path class (path enumeration over alternatives), structural pairing test (static analysis)",
+    "DESIGN.md section 5, C16",
+)
 NOT_APPLICABLE = {
     "C02": "address-stream equality is integer arithmetic over runtime strides/bounds; no structural necessary condition carries weight (DESIGN.md section 5, C02)",
 }
